@@ -19,8 +19,16 @@ m = {
  "not_applicable": meta['not_applicable'],
  "notes": meta.get('notes','')
 }
+import glob, re
 for pid in sorted(meta['checks']):
-    c = meta['checks'][pid]
+    c = dict(meta['checks'][pid])
+    spec = json.load(open('/verif/checks/%s.json' % pid))
+    seeds = sorted(os.path.basename(os.path.dirname(x)) for x in glob.glob('/verif/seeded/%s-*/meta.json' % pid))
+    # counts are taken from the check file, not from hand-written text
+    txt = re.sub(r'\s*\d+ seeded mutants[^.]*\.', '', c['text'])
+    txt += ' Corpora run by the thorough tier: %d must-fail mutants (each fails a named obligation) and %d behaviour-preserving edits that must stay silent; %d changes seeded by isolated sub-agents (%s) are each reported by the quick check.' % (
+        len(spec.get('selftest', [])), len(spec.get('benign', [])), len(seeds), ', '.join(seeds))
+    c['text'] = txt
     m['checks'].append({
       "property_id": pid,
       "quick_cmd": "./check %s quick" % pid,
